@@ -248,6 +248,64 @@ def _render_site(args):
     return traces, viol, n
 
 
+COMPOSITE_ORDERS = [
+    ("text", "dqattr_interp", "sqattr_interp", "content", "talattr_dq", "talattr_sq", "comment", "replace"),
+    ("sqattr_interp", "dqattr_interp", "text"),
+    ("talattr_sq", "text", "talattr_dq", "content", "sqattr_interp"),
+    ("comment", "dictattr", "talattr_sq", "dqattr_interp", "stringexpr"),
+    ("content", "talattr_dq", "content", "talattr_sq", "text", "dqattr_interp"),
+]
+
+
+def _chars(text):
+    """(escaped?, character) atoms of a rendering"""
+    out = []
+    pos = 0
+    for m in ENT_RE.finditer(text):
+        out += [(False, ch) for ch in text[pos:m.start()]]
+        out.append((True, CH[ENT_REV[m.group()]]))
+        pos = m.end()
+    out += [(False, ch) for ch in text[pos:]]
+    return out
+
+
+def _no_less_escaped(got, want):
+    """same characters, and wherever `want` writes a character as an entity `got` does too (writing MORE characters
+    as entities than the site alone would is within the property)"""
+    a, b = _chars(got), _chars(want)
+    return len(a) == len(b) and all(x[1] == y[1] and (x[0] or not y[0]) for x, y in zip(a, b))
+
+
+def _composite(args):
+    """the same value inserted at several sites of ONE template: every region must be what the site produces when it
+    stands alone (the regions of the single-site renderings were validated by TLC against the Escape transducer)"""
+    order, strings = args
+    sys.path.insert(0, REPO_SRC)
+    from chameleon import PageTemplate
+    inner = lambda s: s[len("<r>"):-len("</r>")]    # noqa: E731
+    singles = [PageTemplate(SITES[site], translate=translate) for site in order]
+    comp = PageTemplate("<r>" + "".join(inner(SITES[site]) for site in order) + "</r>", translate=translate)
+    viol = []
+    n = 0
+    for kind in ("str", "strsub", "obj"):
+        for s in strings:
+            text = "".join(CH[c] for c in s)
+            val = make_value(kind, text)
+            kw = dict(v=val, d={"a": val})
+            try:
+                want = "<r>" + "".join(inner(t(**kw)) for t in singles) + "</r>"
+                got = comp(**kw)
+            except Exception as e:
+                viol.append(("composite template of the sites %s, kind %s, value %r: render raised %s: %s" % (
+                    list(order), kind, text, type(e).__name__, e), {}))
+                continue
+            n += 1
+            if got != want and not _no_less_escaped(got, want):
+                viol.append(("the value %r (%s) inserted at the sites %s of one template renders %r; each site alone gives %r" % (
+                    text, kind, list(order), got, want), dict(source=comp.body if hasattr(comp, "body") else "", got=got, want=want)))
+    return viol, n
+
+
 TCFG = """SPECIFICATION TSpec
 CONSTANTS
  Chars <- MCChars
@@ -296,6 +354,13 @@ def run(ctx):
         for text, payload in viol[:3]:
             if len(ctx.violations) < 8:
                 ctx.violation(text, dict(kind="escape", **payload))
+    with multiprocessing.get_context("fork").Pool(len(COMPOSITE_ORDERS)) as pool:
+        cres = pool.map(_composite, [(o, strings) for o in COMPOSITE_ORDERS])
+    for viol, n in cres:
+        ctx.replays += n
+        for text, payload in viol[:2]:
+            if len(ctx.violations) < 8:
+                ctx.violation(text, dict(kind="escape-composite", **payload))
     B = 40000
     batches = [traces[i:i + B] for i in range(0, len(traces), B)]
     with multiprocessing.get_context("fork").Pool(min(8, max(1, len(batches)))) as pool:
